@@ -54,6 +54,7 @@ class Report:
         self.inconclusive = []
         self.classes = {}  # workload class -> count
         self.n_violations = 0
+        self.lines = {}  # library file -> sorted list of executed line numbers (sys.monitoring coverage)
 
     # ------------------------------------------------------------------ bookkeeping
     def case(self, descr, nontrivial=True, cls=None):
@@ -84,6 +85,10 @@ class Report:
             residual = float(residual)
         except Exception:
             residual = float("nan")
+        if tol != tol:  # a NaN tolerance means the oracle could not be evaluated: inconclusive, never a verdict
+            o["checked"] -= 1
+            self.harness_error(f"oracle '{oracle}': tolerance is NaN for case {str(case)[:200]}")
+            return True
         ok = residual <= tol
         ratio = residual / tol if tol > 0 and not math.isnan(residual) else (0.0 if ok else float("inf"))
         if ok:
@@ -147,6 +152,7 @@ class Report:
             "harness_errors": self.harness_errors,
             "inconclusive": self.inconclusive,
             "classes": self.classes,
+            "lines": self.lines,
         }
 
 
@@ -155,7 +161,7 @@ def merge(reports):
     out = {
         "cases": 0, "distinct": 0, "counters": {}, "oracles": {}, "samples": [],
         "violations": [], "n_violations": 0, "known": {}, "harness_errors": [],
-        "inconclusive": [], "classes": {}, "shards": len(reports),
+        "inconclusive": [], "classes": {}, "shards": len(reports), "lines": {},
     }
     for r in reports:
         out["cases"] += r["cases"]
@@ -183,6 +189,8 @@ def merge(reports):
         for k, v in r["known"].items():
             o = out["known"].setdefault(k, {"count": 0, "what": v["what"], "example": v["example"]})
             o["count"] += v["count"]
+        for f, ls in r.get("lines", {}).items():
+            out["lines"].setdefault(f, set()).update(ls)
         out["harness_errors"].extend(r["harness_errors"])
         for reason in r["inconclusive"]:
             if reason not in out["inconclusive"]:
